@@ -40,6 +40,17 @@ func init() {
 			emit("connrace 4")
 			emit("connrace 8")
 		}
+		// several hundred goroutines queue for one client at the same moment (a counter of waiters that is too narrow
+		// wraps around only then): one request each
+		if tier != "race" {
+			for i, nt := range []int{300, 520} {
+				if i%nshards == shard || nshards == 1 {
+					for _, kind := range []string{"t", "r"} {
+						emit(genConcOp(rng, kind, nt, 1, 0, 0))
+					}
+				}
+			}
+		}
 		n := 40
 		if tier == "thorough" {
 			n = 1200
